@@ -1,5 +1,6 @@
 """C12 -- listings are total, faithful to the instruction stream, and clean (DESIGN.md section 4, C12)."""
 import ast
+import os
 
 from ..callgraph import CallGraph
 from ..fold import ClassRef, FuncRef, Instance
@@ -304,8 +305,12 @@ def run(rep, tier):
                        "listing loop (symbolic instruction) for exactly-once emission; def-use of the rendered columns in Instruction.disassemble; "
                        "format-name coverage")
     rep.rule("R1", "nothing reachable from disassemble_file prints to standard output (print without file=, sys.stdout.write) except through the output stream parameter")
-    rep.rule("R2", "in the listing loop every instruction is written exactly once, in iteration order, except CACHE entries (hidden) and, in xasm only, EXTENDED_ARG prefixes (folded)")
-    rep.rule("R3", "the rendered offset, opcode name, '>>' mark and line number column come from that instruction's offset / opname / is_jump_target / starts_line")
+    rep.rule("R2", "the listing loop run on a scripted stream of concrete instruction records (line start, inline CACHE entry, jump target, EXTENDED_ARG prefix starting a line, "
+                   "SET_LINENO, per table 1.5 / 2.7 / 3.8 / 3.12 and per format) renders every instruction exactly once, in order, except CACHE entries (hidden outside the "
+                   "bytes formats) and, in xasm only, EXTENDED_ARG prefixes (folded into the next instruction, which takes the prefix's offset); in classic and bytes each row "
+                   "carries the record's own offset, line start (SET_LINENO's line for its successor) and jump-target mark; every row is written to the stream once")
+    rep.rule("R3", "Instruction.disassemble folded on concrete records (LOAD_CONST, POP_TOP, JUMP_FORWARD; tables 2.7, 3.8, 3.12; classic and bytes): the text shows that record's "
+                   "offset, opcode name and operand, '>>' iff is_jump_target and the line number iff starts_line is set")
     rep.rule("R4", "every format name pydisasm accepts is dispatched on somewhere in the listing code")
     rep.rule("R6", "extended formatters: an index into the instruction window computed by arithmetic on a walk position is preceded by a bounds test against "
                    "len(instructions) that returns; every result of get_instruction_index_from_offset is tested for None before use; a constant index into the "
@@ -437,100 +442,174 @@ def run(rep, tier):
     hits = [n for n in ast.walk(ctl) if isinstance(n, ast.Call) and isinstance(n.func, ast.Name) and n.func.id == "print" and "file" not in {k.arg for k in n.keywords}]
     if len(hits) != 1:
         raise AnalysisError("positive control for R1 failed")
-    # ---------------------------------------------------------------- R2 listing loop per format
+    # ---------------------------------------------------------------- R2 listing loop per format, decided on a scripted instruction stream
+    # The decoder is replaced by a scripted list of concrete instruction records (a line start, an inline CACHE entry where the table has one, an EXTENDED_ARG prefix
+    # that starts a line followed by its instruction, a SET_LINENO where the table has one, a final instruction); Instruction.disassemble is replaced by a recorder.
+    # The specialiser then runs the loop concretely, whatever its form, and the sequence of rows written to the stream is compared with what the property says.
+    from ..fold import BoundMethod
     B = F.modules["xdis.bytecode"].ns.get("Bytecode")
     db = B.lookup("disassemble_bytes") if isinstance(B, ClassRef) else None
-    if not isinstance(db, FuncRef):
-        raise AnalysisError("anchor vanished: xdis.bytecode.Bytecode.disassemble_bytes")
+    I_ = F.modules["xdis.instruction"].ns.get("Instruction")
+    if not isinstance(db, FuncRef) or not isinstance(I_, ClassRef):
+        raise AnalysisError("anchor vanished: xdis.bytecode.Bytecode.disassemble_bytes / xdis.instruction.Instruction")
+    rfields = [a.target.id for a in I_.node.body if isinstance(a, ast.AnnAssign) and isinstance(a.target, ast.Name)]
+
+    def rec(**kw):
+        i = Instance(I_)
+        for f_ in rfields:
+            i.attrs[f_] = None
+        i.attrs.update(has_extended_arg=False, fallthrough=True, is_jump_target=False, starts_line=None, arg=0, argval=0, argrepr="", has_arg=True, inst_size=2, optype=None)
+        i.attrs.update(kw)
+        return i
     for fmt in FORMATS:
-        for v in ("2.7", "3.12"):
+        for v in ("1.5", "2.7", "3.8", "3.12"):
             opc = T.table_for_version(v)
+            om = opc.ns["opmap"]
+            stream = [rec(opname="LOAD_CONST", opcode=om["LOAD_CONST"], offset=0, starts_line=1)]
+            if "CACHE" in om:
+                stream.append(rec(opname="CACHE", opcode=om["CACHE"], offset=2))
+            stream.append(rec(opname="STORE_NAME", opcode=om["STORE_NAME"], offset=4, is_jump_target=True))
+            if "EXTENDED_ARG" in om:
+                stream.append(rec(opname="EXTENDED_ARG", opcode=om["EXTENDED_ARG"], offset=6, starts_line=2, arg=1))
+                stream.append(rec(opname="LOAD_NAME", opcode=om["LOAD_NAME"], offset=8, arg=256, has_extended_arg=True))
+            if "SET_LINENO" in om:
+                stream.append(rec(opname="SET_LINENO", opcode=om["SET_LINENO"], offset=10, arg=3, argval=3))
+            stream.append(rec(opname="POP_TOP", opcode=om["POP_TOP"], offset=12, has_arg=False))
+            stream.append(rec(opname="RETURN_VALUE", opcode=om["RETURN_VALUE"], offset=14, has_arg=False, starts_line=4))
+            ANY = Sym("OPNAME", "str")
+            stream.append(rec(opname=ANY, opcode=Sym("OPCODE", "int"), offset=16, has_arg=False))  # an instruction of any name: who else is left out?
+            generic = []
             self_ = Instance(B)
             self_.attrs.update(opc=opc)
-            sp = Spec(F, opaque_funcs={"get_instructions_bytes", "getline", "get_docstring"})
-            sp.gen_elem_hook = lambda spec, gen, tag: Sym("instr", "obj!")
+            sp = Spec(F, opaque_funcs={"getline", "get_docstring"})
+            sp.record_classes = {"Instruction"}
+            rows, srcs = [], []
 
-            def hook(spec, name, fv, args, kw, node):
+            def hook(spec, name, fv, args, kw, node, rows=rows, srcs=srcs, stream=stream, generic=generic):
                 if name.endswith("get_instructions_bytes"):
-                    spec.effect("gen", name, tuple(args), tuple(sorted(kw.items())), node=node)
-                    return Sym("instructions_gen", "gen", {})
+                    srcs.append(show(args[0]) if args else show(kw.get("bytecode")))
+                    return list(stream)
+                if name.endswith("Instruction.disassemble") and isinstance(fv, BoundMethod) and isinstance(fv.self, Instance):
+                    a_ = fv.self.attrs
+                    if not isinstance(a_.get("opname"), str):
+                        generic.append((a_.get("opname"), [g_ for g_ in spec.guards if not (isinstance(g_, Op) and g_.op == "in-loop")]))
+                        if os.environ.get("XV_DEBUG12"):
+                            print("GENERIC", fmt, v, show(a_.get("opname"))[:200], [show(g_)[:200] for g_ in generic[-1][1]])
+                        return "GENERIC;"
+                    rows.append((a_.get("opname"), a_.get("offset"), a_.get("starts_line"), a_.get("is_jump_target")))
+                    return "ROW%d;" % len(rows)
                 return NotImplemented
             sp.hooks.append(hook)
             out = Sym("out", "obj!")
-            sp.run(db, [self_, Sym("code", "bytes")], dict(file=out, asm_format=fmt, line_starts=Sym("line_starts", "dict"), show_source=False,
-                                                           varnames=Sym("varnames", "tuple"), names=Sym("names", "tuple"), constants=Sym("constants", "tuple"),
-                                                           cells=Sym("cells", "tuple")))
-            ls = None
-            for k, e in flatten_effects(sp.effects):
-                if k == "loop-begin" and "instructions_gen" in show(e.args[3].cond):
-                    ls = e.args[3]
             cfg = "%s@%s" % (fmt, v)
-            if ls is None:
-                rep.ob("R2", db.qualname, "%s:loop" % cfg, False, expected="a loop over get_instructions_bytes(...)", derived="not found")
+            try:
+                sp.run(db, [self_, Sym("code", "bytes")], dict(file=out, asm_format=fmt, line_starts={}, show_source=False, varnames=(), names=(), constants=(), cells=()))
+            except Exception as ex:
+                rep.ob("R2", db.qualname, "%s:rows" % cfg, False, expected="the listing loop runs on a scripted instruction stream", derived="not evaluable: %s" % str(ex)[:100])
                 continue
             rep.configurations += 1
-            emits = [e for e in ls.effects if e.kind == "call" and str(e.args[0]).endswith("out.write") and "disassemble" in show(e.args[1])]
-            bad = []
-            for g, l in leaves(ls.out):
-                gl = []
-                for x in g:
-                    gl.extend(conjuncts(x))
-                n = sum(1 for e in emits if guards_apply(e.guards, g))
-                cond = [show(x) for x in gl]
-                if isinstance(l, Cont):
-                    txt = " and ".join(cond)
-                    allowed = ("Eq(attr(instr, 'opname'), 'CACHE')" in txt) or (fmt == "asm" and "Eq(attr(instr, 'opname'), 'EXTENDED_ARG')" in txt)
-                    if n != 0 or not allowed:
-                        bad.append(("skip", cond[-3:], n))
-                elif isinstance(l, Fall):
-                    if n != 1:
-                        bad.append(("emit-count", cond[-3:], n))
-                else:
-                    bad.append((type(l).__name__, cond[-3:], n))
-            rep.ob("R2", db.qualname, "%s:exactly-once" % cfg, not bad and bool(emits), expected="one file.write(instr.disassemble(...)) per instruction; skips only for CACHE (and EXTENDED_ARG in xasm)",
-                   derived=bad or len(emits), msg="an instruction can be listed %s" % ("twice or not at all on paths %s" % bad))
-            # the instruction written is the loop's instruction (possibly re-created with only starts_line/offset changed)
-            srcs = set()
-            for e in emits:
-                a = e.args[1][0]
-                s = show(a)
-                srcs.add("instr" in s)
-            rep.ob("R2", db.qualname, "%s:writes-the-iterated-instruction" % cfg, srcs == {True}, derived=sorted(srcs))
-            # iteration source
-            gens = [e for e in sp.effects if e.kind == "gen"]
-            rep.ob("R2", db.qualname, "%s:source-is-instruction-stream" % cfg, len(gens) == 1 and show(gens[0].args[1][0]) == "code", expected="get_instructions_bytes(bytecode, ...)",
-                   derived=[show(g.args[1]) for g in gens][:2])
+            written = "".join(show(e.args[1]) for k, e in flatten_effects(sp.effects) if k == "call" and str(e.args[0]).endswith("out.write"))
+            order = [int(x.split(";")[0]) for x in written.split("ROW")[1:] if x.split(";")[0].isdigit()]
+            # what the property asks for
+            want = []
+            pending_line = None
+            prefix = None
+            for r_ in stream[:-1]:
+                a_ = r_.attrs
+                if a_["opname"] == "CACHE" and fmt not in ("bytes", "extended-bytes"):
+                    continue
+                line = a_["starts_line"]
+                if pending_line is not None:
+                    line, pending_line = pending_line, None
+                if a_["opname"] == "SET_LINENO":
+                    pending_line = a_["argval"]
+                if fmt == "asm" and a_["opname"] == "EXTENDED_ARG":
+                    prefix = a_
+                    continue
+                off = a_["offset"]
+                if prefix is not None:
+                    off, prefix = prefix["offset"], None
+                want.append((a_["opname"], off, line, a_["is_jump_target"]))
+            strict = fmt in ("classic", "bytes")
+            got_cmp = [(n_, o_, l_, t_) if strict else (n_, o_) for n_, o_, l_, t_ in rows]
+            want_cmp = [(n_, o_, l_, t_) if strict else (n_, o_) for n_, o_, l_, t_ in want]
+            if fmt == "extended-bytes":  # whether inline CACHE entries are shown in this format is not part of the property
+                got_cmp = [x for x in got_cmp if x[0] != "CACHE"]
+                want_cmp = [x for x in want_cmp if x[0] != "CACHE"]
+            rep.ob("R2", db.qualname, "%s:rows" % cfg, got_cmp == want_cmp, expected=want_cmp, derived=got_cmp,
+                   msg="for the scripted stream the %s listing renders %s; the property asks for %s (every instruction once, in order%s)" % (
+                       fmt, got_cmp, want_cmp, ", with its own offset, line start and jump-target mark" if strict else ""))
+            rep.ob("R2", db.qualname, "%s:each-row-written-once-in-order" % cfg, order == list(range(1, len(rows) + 1)), expected=list(range(1, len(rows) + 1)), derived=order,
+                   msg="the rendered rows are not written to the output stream exactly once each, in order")
+            # the instruction of any name: rendered exactly once for every opcode name of the table, CACHE / xasm's EXTENDED_ARG excepted
+            from ..sve import eval_term as _ev
+            wrong = []
+            for nm_ in sorted(set(n_ for n_ in opc.ns["opname"] if isinstance(n_, str) and not n_.startswith("<"))) + ["SOME_FUTURE_OPCODE"]:
+                try:
+                    cnt = sum(1 for on_, gs_ in generic if repr(on_) == repr(ANY) and all(bool(_ev(g_, {repr(ANY): nm_})) for g_ in gs_))
+                except Exception as ex:
+                    wrong.append("%s: not evaluable (%s)" % (nm_, str(ex)[:60]))
+                    break
+                if nm_ == "CACHE" and fmt == "extended-bytes":
+                    continue
+                exp_ = 0 if (nm_ == "CACHE" and fmt != "bytes") or (fmt == "asm" and nm_ == "EXTENDED_ARG") else 1
+                if cnt != exp_:
+                    wrong.append("%s rendered %d time(s)" % (nm_, cnt))
+            rep.ob("R2", db.qualname, "%s:every-opcode-name-rendered-once" % cfg, not wrong, expected="one row for an instruction of any name; none for CACHE (outside bytes) and xasm's EXTENDED_ARG",
+                   derived=wrong[:4] or "%d names evaluated" % len(opc.ns["opname"]), msg="in the %s listing %s" % (fmt, "; ".join(wrong[:3])))
+            rep.ob("R2", db.qualname, "%s:source-is-instruction-stream" % cfg, srcs == ["code"], expected="get_instructions_bytes(bytecode, ...) called once", derived=srcs[:3])
+
     # ---------------------------------------------------------------- R9 what the listing row of an instruction shows (per table, through Bytecode.dis)
     listing_row_rule(rep, T, F, B)
-    # ---------------------------------------------------------------- R3 rendering def-use
+    # ---------------------------------------------------------------- R3 what Instruction.disassemble renders, decided on the folded text
     I = F.modules["xdis.instruction"].ns.get("Instruction")
     dis = I.lookup("disassemble") if isinstance(I, ClassRef) else None
     if not isinstance(dis, FuncRef):
         raise AnalysisError("anchor vanished: xdis.instruction.Instruction.disassemble")
     rep.analysed(dis.qualname)
-    for fmt in ("classic", "bytes"):
-        opc = T.table_for_version("3.8")
-        sp = Spec(F)
-        me = Sym("self", "obj!")
-        fields = Sym("fields_list", "list")
-        sp.run(dis, [me, opc], dict(line_starts=Sym("line_starts", "dict"), lineno_width=3, mark_as_current=False, asm_format=fmt, instructions=Sym("instructions", "list")))
-        apps = [e for k, e in flatten_effects(sp.effects) if k == "mutate" and e.args[0] == "append"]
-        app_txt = [(show(e.args[2]), [show(g) for g in e.guards]) for e in apps]
+    from ..fold import FoldError as _FE, PyExc as _PE
+    ifields = [a.target.id for a in I.node.body if isinstance(a, ast.AnnAssign) and isinstance(a.target, ast.Name)]
 
-        def find(pred):
-            return [(t, g) for t, g in app_txt if pred(t)]
-        off = find(lambda t: "attr(self, 'offset')" in t)
-        rep.ob("R3", dis.qualname, "%s:offset-column" % fmt, len(off) == 1 and not off[0][1], expected="repr(self.offset) rendered unconditionally", derived=off)
-        opn = find(lambda t: "attr(self, 'opname')" in t and "ljust" in t)
-        rep.ob("R3", dis.qualname, "%s:opname-column" % fmt, len(opn) == 1 and not opn[0][1], expected="self.opname rendered unconditionally", derived=opn)
-        mark = find(lambda t: t == "('>>',)")
-        nomark = find(lambda t: t == "('  ',)")
-        okm = len(mark) == 1 and mark[0][1] == ["attr(self, 'is_jump_target')"] and len(nomark) == 1 and nomark[0][1] == ["not(attr(self, 'is_jump_target'))"]
-        rep.ob("R3", dis.qualname, "%s:jump-target-mark" % fmt, okm, expected="'>>' iff self.is_jump_target", derived=[mark, nomark])
-        ln = find(lambda t: "attr(self, 'starts_line')" in t)
-        okl = len(ln) == 1 and ln[0][1] == ["IsNot(attr(self, 'starts_line'), None)"]
-        blank = [(t, g) for t, g in app_txt if g == ["not(IsNot(attr(self, 'starts_line'), None))"]]
-        rep.ob("R3", dis.qualname, "%s:line-column" % fmt, okl and len(blank) == 1, expected="self.starts_line rendered iff it is not None, blanks otherwise", derived=[ln, blank])
+    def record(opc, **kw):
+        i = Instance(I)
+        for f_ in ifields:
+            i.attrs[f_] = None
+        i.attrs.update(has_extended_arg=False, fallthrough=True, is_jump_target=False, starts_line=None)
+        i.attrs.update(kw)
+        return i
+    for vs in ("2.7", "3.8", "3.12"):
+        opc = T.table_for_version(vs)
+        om = opc.ns["opmap"]
+        wide = tuple(opc.ns["version_tuple"][:2]) >= (3, 6)
+        samples = [
+            ("LOAD_CONST", dict(opcode=om["LOAD_CONST"], opname="LOAD_CONST", arg=1, argval="xyz", argrepr="'xyz'", optype="const", has_arg=True, inst_size=2 if wide else 3), "'xyz'"),
+            ("POP_TOP", dict(opcode=om["POP_TOP"], opname="POP_TOP", arg=None if not wide else 0, argval=None, argrepr="", optype=None, has_arg=False, inst_size=2 if wide else 1), None),
+            ("JUMP_FORWARD", dict(opcode=om["JUMP_FORWARD"], opname="JUMP_FORWARD", arg=4, argval=1250, argrepr="to 1250", optype="jrel", has_arg=True, inst_size=2 if wide else 3), "1250"),
+        ]
+        for fmt in ("classic", "bytes"):
+            for sname, fields_, operand in samples:
+                bad = []
+                try:
+                    def row(off, line, tgt):
+                        return F.apply(dis, [record(opc, offset=off, starts_line=line, is_jump_target=tgt, **fields_), opc, {}, 3, False, fmt, []], {})
+                    a_, b_, c_, d_ = row(10, None, False), row(1234, None, False), row(10, 777, False), row(10, None, True)
+                    if not all(isinstance(t_, str) for t_ in (a_, b_, c_, d_)):
+                        raise _FE("not a string")
+                    if "10" not in a_.split() or "1234" not in b_.split() or "1234" in a_.split():
+                        bad.append("offset column: %r / %r" % (a_, b_))
+                    if sname not in a_.split():
+                        bad.append("opcode name missing: %r" % a_)
+                    if operand and operand not in a_:
+                        bad.append("operand text %s missing: %r" % (operand, a_))
+                    if "777" not in c_ or "777" in a_:
+                        bad.append("line column: starts line 777 -> %r, starts no line -> %r" % (c_, a_))
+                    if ">>" not in d_ or ">>" in a_:
+                        bad.append("'>>' mark: jump target -> %r, other -> %r" % (d_, a_))
+                except (_PE, _FE) as ex:
+                    bad.append("not evaluable: %s" % str(ex)[:80])
+                rep.ob("R3", dis.qualname, "%s@%s:%s:row" % (fmt, vs, sname), not bad, expected="offset, opcode name, operand, '>>' iff jump target, line number iff it starts a line",
+                       derived=bad[:3] or "as expected", msg="; ".join(bad[:2]))
+
     # ---------------------------------------------------------------- R4 formats
     pm = repo.modules.get("xdis.bin.pydisasm")
     if pm is None:
